@@ -899,3 +899,74 @@ func LeavesX(p *Prog, fn *ssa.Function, v ssa.Value, depth int) []ssa.Value {
 	}
 	return out
 }
+
+// withHelpers returns fn followed by the unexported functions of the same
+// package that it calls statically (transitively up to depth), i.e. the code
+// a maintainer may have extracted from fn. Rules that ask "does fn do X"
+// about straight-line facts (a comparison, a call) look at all of them.
+func withHelpers(p *Prog, fn *ssa.Function, depth int) []*ssa.Function {
+	out := []*ssa.Function{fn}
+	seen := map[*ssa.Function]bool{fn: true}
+	var visit func(f *ssa.Function, d int)
+	visit = func(f *ssa.Function, d int) {
+		if d >= depth {
+			return
+		}
+		instrs(f, func(_ *ssa.BasicBlock, _ int, in ssa.Instruction) {
+			cl, ok := in.(ssa.CallInstruction)
+			if !ok {
+				return
+			}
+			sc := cl.Common().StaticCallee()
+			if sc == nil || sc.Blocks == nil || seen[sc] || sc.Object() == nil || sc.Object().Exported() || sc.Pkg != fn.Pkg || anchorNames[sc.Name()] {
+				return
+			}
+			seen[sc] = true
+			out = append(out, sc)
+			visit(sc, d+1)
+		})
+		for _, a := range f.AnonFuncs {
+			if !seen[a] {
+				seen[a] = true
+				out = append(out, a)
+				visit(a, d+1)
+			}
+		}
+	}
+	visit(fn, 0)
+	return out
+}
+
+// helperResultLeaves: if l is (an Extract of) a call to an unexported,
+// non-role function of a product package, the leaves of what that function
+// returns in that position; otherwise l itself. Narrower than LeavesX: it
+// expands one extracted helper and nothing else.
+func helperResultLeaves(p *Prog, l ssa.Value) []ssa.Value {
+	var call *ssa.Call
+	idx := 0
+	switch x := l.(type) {
+	case *ssa.Call:
+		call = x
+	case *ssa.Extract:
+		if cl, ok := x.Tuple.(*ssa.Call); ok {
+			call, idx = cl, x.Index
+		}
+	}
+	if call == nil {
+		return []ssa.Value{l}
+	}
+	sc := call.Common().StaticCallee()
+	if sc == nil || sc.Blocks == nil || sc.Object() == nil || sc.Object().Exported() || anchorNames[sc.Name()] || sc.Pkg == nil || sc.Pkg.Pkg == nil || !inProduct(sc.Pkg.Pkg.Path()) || len(sc.Blocks) > 30 {
+		return []ssa.Value{l}
+	}
+	var out []ssa.Value
+	instrs(sc, func(_ *ssa.BasicBlock, _ int, in ssa.Instruction) {
+		if r, ok := in.(*ssa.Return); ok && idx < len(r.Results) {
+			out = append(out, Leaves(retVal(r, idx), nil)...)
+		}
+	})
+	if len(out) == 0 {
+		return []ssa.Value{l}
+	}
+	return out
+}
